@@ -186,12 +186,15 @@ class Env:
 
         if cfg.cls == "htdigest":
             return {}
-        if cfg.scheme == "plaintext":
-            return {"default_scheme": "plaintext"}
         if cfg.scheme == "default":
             return {}
         if cfg.scheme not in self.contexts:
+            from passlib.apache import htpasswd_context
+
             self.contexts[cfg.scheme] = {
+                # what HtpasswdFile(default_scheme="plaintext") builds on every construction, built once
+                # (the default_scheme= keyword itself is used by the refused-names / encoding / injection groups)
+                "plaintext": lambda: htpasswd_context.copy(default="plaintext"),
                 "ldap_sha1": lambda: CryptContext(["ldap_sha1", "ldap_md5"]),
                 "deprecated": lambda: CryptContext(["ldap_sha1", "plaintext"], deprecated=["plaintext"]),
                 "md5_crypt": lambda: CryptContext(["md5_crypt", "ldap_sha1"]),
@@ -446,9 +449,9 @@ def build(tier, rng):
                 f"{'HtpasswdFile' if cls == 'htpasswd' else 'HtdigestFile'} (_CommonFile._records/_source)",
                 f"random operation sequences of length {maxlen} (all prefixes checked) over the same operations, for every configuration in schemes {schemes} x "
                 f"encoding utf-8/latin-1 x autosave on/off x str/bytes arguments x 5 initial files"
-                f"{' x default_realm set/unset' if cls == 'htdigest' else ''}: {'10' if quick else '60'} sequences each; same observations after every step",
+                f"{' x default_realm set/unset' if cls == 'htdigest' else ''}: {'20' if quick else '60'} sequences each; same observations after every step",
             )
-            per = 10 if quick else 60
+            per = 20 if quick else 60
             for scheme in schemes:
                 for encoding in ("utf-8", "latin-1"):
                     for autosave in (False, True):
@@ -467,11 +470,11 @@ def build(tier, rng):
         g = Group(
             "htpasswd-default-context",
             "HtpasswdFile (default htpasswd_context)",
-            f"HtpasswdFile with the shipped htpasswd_context (apr_md5_crypt, salted) and a custom md5_crypt context: {'40' if quick else '400'} random sequences of "
+            f"HtpasswdFile with the shipped htpasswd_context (apr_md5_crypt, salted) and a custom md5_crypt context: {'100' if quick else '400'} random sequences of "
             f"length {maxlen} over the 5 initial files ({{SHA}} hashes from hashlib), autosave/encoding/argument style drawn at random; a fresh $apr1$/$1$ hash must "
             "be stored by set_password and verify exactly its password afterwards",
         )
-        for n in range(40 if quick else 400):
+        for n in range(100 if quick else 400):
             cfg = Cfg("htpasswd", "default" if n % 4 else "md5_crypt", rng.choice(["utf-8", "latin-1"]), rng.random() < 0.5, rng.random() < 0.5, INITIALS[n % 5])
             ops = ops_for(cfg)
             seq = tuple(rng.choice(ops) for _ in range(maxlen))
